@@ -332,8 +332,24 @@ pub fn dt_edges() -> Vec<i128> {
     dedup(v)
 }
 
+/// Day counts on a geometric ladder (ratio `r`) with the time of day at its extremes.
+pub fn dt_ladder(r: f64) -> Vec<i128> {
+    let mut v = vec![];
+    let mut d = 131f64;
+    while d < 100_000_000.0 {
+        let days = d as i128;
+        for t in [0i128, 1, hms(23, 59, 59, 0), hms(23, 59, 59, 999_999)] {
+            v.push(days * US_PER_DAY + t);
+            v.push(-(days * US_PER_DAY + t));
+        }
+        d *= r;
+    }
+    v
+}
+
 pub fn dt_pool(seed: u64, nrandom: usize) -> Vec<i128> {
     let mut v = dt_edges();
+    v.extend(dt_ladder(if nrandom >= 400 { 1.05 } else { 1.35 }));
     let mut r = SplitMix(seed ^ 0xD7);
     let span = ts_max() - ts_min();
     for k in 0..nrandom {
